@@ -37,8 +37,8 @@ pub open spec fn mscale(k: real, m: M3) -> M3 { M3 { a: vscale(k, m.a), b: vscal
 pub open spec fn mdet(m: M3) -> real {
     m.a.x * (m.b.y * m.c.z - m.b.z * m.c.y) - m.a.y * (m.b.x * m.c.z - m.b.z * m.c.x) + m.a.z * (m.b.x * m.c.y - m.b.y * m.c.x)
 }
-/// proper rotation: orthogonal with determinant 1
-pub open spec fn proper(m: M3) -> bool { mmul(m, mtr(m)) == mid() && mdet(m) == 1real }
+/// orthogonal matrix (rotation or reflection); what the round-trip lemmas need
+pub open spec fn proper(m: M3) -> bool { mmul(m, mtr(m)) == mid() && mmul(mtr(m), m) == mid() }
 pub open spec fn rot_z(s: real, c: real) -> M3 { M3 { a: v3(c, -s, 0real), b: v3(s, c, 0real), c: v3(0real, 0real, 1real) } }
 pub open spec fn rot_y(s: real, c: real) -> M3 { M3 { a: v3(c, 0real, s), b: v3(0real, 1real, 0real), c: v3(-s, 0real, c) } }
 pub open spec fn iso_mul(p: Iso, q: Iso) -> Iso { Iso { r: mmul(p.r, q.r), t: vadd(p.t, mvec(p.r, q.t)) } }
@@ -280,18 +280,7 @@ pub broadcast axiom fn ax_iso_inv(a: Isometry3)
     requires a.wf()
     ensures (#[trigger] iso_inv_s(a)).wf(), iso_inv_s(a).view() == iso_inv(a.view());
 
-// ---- isometry algebra over the real-valued view (textbook facts about rigid motions; ASSUMED, not proved) -----
 pub open spec fn iso_wf(p: Iso) -> bool { proper(p.r) }
-pub axiom fn ax_iso_assoc(a: Iso, b: Iso, c: Iso)
-    ensures iso_mul(iso_mul(a, b), c) == iso_mul(a, iso_mul(b, c));
-pub axiom fn ax_iso_inverse(a: Iso)
-    requires iso_wf(a)
-    ensures iso_mul(a, iso_inv(a)) == iso_id(), iso_mul(iso_inv(a), a) == iso_id(), iso_wf(iso_inv(a));
-pub axiom fn ax_iso_identity(a: Iso)
-    ensures iso_mul(a, iso_id()) == a, iso_mul(iso_id(), a) == a;
-pub axiom fn ax_iso_mul_wf(a: Iso, b: Iso)
-    requires iso_wf(a), iso_wf(b)
-    ensures iso_wf(iso_mul(a, b));
 
 pub broadcast group group_na {
     ax_mat_mul, ax_mat_scale, ax_mat_vec, ax_vec_add, ax_vec_sub, ax_vec_scale, ax_iso_mul, ax_iso_inv, ax_norm,
